@@ -58,4 +58,14 @@ def jobs(tier):
                 if N <= 3 or tier != 'quick':
                     add('N=%d,both,k=%d,warm=%d,off-data init,shortcut' % (N, w + 1, w), N=N, mode='both', k=w + 1, warm=w, warm_outside=True,
                         props=('C02',), shortcut='compare')
+    # INTERPRETED data (points on a line, metric |x - y| computed on the values): exposes the element types of the frames
+    # (int64 / float64) and of off-data initial centers (float64) to the code under test
+    for N in ((3, 4) if tier == 'quick' else (3, 4, 5)):
+        for dt in ('int', 'float'):
+            add('N=%d,both,k=3,%s frames on a line' % (N, dt), N=N, mode='both', k=3, data=dt, props=('C01', 'C02'))
+            add('N=%d,both,k=3,warm=1,%s frames on a line,float off-data init,shortcut' % (N, dt), N=N, mode='both', k=3, warm=1,
+                warm_outside=True, data=dt, props=('C02',), shortcut='compare')
+            if N <= 3 or tier != 'quick':
+                add('N=%d,both,k=4,warm=2,%s frames on a line,float off-data init,shortcut' % (N, dt), N=N, mode='both', k=4, warm=2,
+                    warm_outside=True, data=dt, props=('C02',), shortcut='compare')
     return J
